@@ -271,7 +271,18 @@ def aggregate(model, R):
                     else:
                         break
                 if g.generators[0].ifs:
-                    R.unknown('BOUNDS', func, g, f'Lattice.{name}: the extents of exactly the given concepts', 'filtered: ' + src(g.generators[0].ifs[0]))
+                    tv = g.generators[0].target.id
+                    conds = g.generators[0].ifs
+                    # dropping empty extents: neutral for a union, but the empty extent is the absorbing element of an intersection
+                    only_nonempty = len(conds) == 1 and chain(conds[0]) == [tv, '_extent'] and name_is(it, p)
+                    if only_nonempty and name == 'join':
+                        R.ok('BOUNDS', func, g, f'Lattice.{name}: the extents of exactly the given concepts', 'empty extents skipped (neutral for a union)')
+                    elif only_nonempty:
+                        R.bad('BOUNDS', func, g, f'Lattice.{name}: the extents of exactly the given concepts', f'({tv}._extent for {tv} in {p})', src(g),
+                              extra={'consequence': 'a concept with an empty extent (the bottom) forces the intersection to be empty; skipping it returns a '
+                                                    'concept above the greatest lower bound (meet([infimum]) is the supremum)'})
+                    else:
+                        R.unknown('BOUNDS', func, g, f'Lattice.{name}: the extents of exactly the given concepts', 'filtered: ' + src(conds[0]))
                 elif name_is(it, p):
                     R.ok('BOUNDS', func, g, f'Lattice.{name}: the extents of exactly the given concepts')
                 elif isinstance(it, ast.Call) and (chain(it.func) or [''])[-1] == 'maximal' and it.args and name_is(it.args[0], p):
